@@ -21,7 +21,9 @@ func zzSession(stor storage.Storage, maxManifest int64) *session {
 }
 
 func ZZ_C04_rotate() {
-	stor := storage.NewMemStorage()
+	// the storage is wrapped by the durability monitor (recover_h.go): CURRENT
+	// may only be switched to a synced manifest, the current manifest is never removed
+	var stor storage.Storage = &zzCrashStor{Storage: storage.NewMemStorage(), crashAt: -1}
 	maxm := int64(64 << 20)
 	if vpChoose(2) == 1 {
 		maxm = 1 // every commit after the first rotates the manifest
@@ -44,6 +46,10 @@ func ZZ_C04_rotate() {
 		num := s.allocFileNum()
 		rec.addTable(0, num, 10, makeInternalKey(nil, []byte("a"), q, keyTypeVal), makeInternalKey(nil, []byte("b"), q, keyTypeVal))
 		vpAssert(s.commit(rec, false) == nil, "commit-ok")
+		// an acknowledged commit is durable: no manifest has unsynced bytes
+		for f, d := range stor.(*zzCrashStor).dirty {
+			vpAssert(f.Type != storage.TypeManifest || !d, "acknowledged-commit-is-synced")
+		}
 		jn, sn = j, q
 		ntables++
 		vpAssert(s.stJournalNum == jn, "session-journal-number-updated")
